@@ -32,9 +32,21 @@ extern "C" {
     fn riti_config_set_smart_quote(p: *mut Config, o: bool);
 }
 
-pub const REPO: &str = "/repo";
-pub const DATA_DIR: &str = "/repo/data";
-pub const PROBHAT: &str = "/repo/data/Probhat.json";
+/// Root of the riti checkout whose data files and header are read at run time.  Always /repo for the
+/// registered checks; `VERIF_REPO` exists only so that a scratch copy of the harness can be pointed at a
+/// scratch worktree (sensitivity experiments that must not touch /repo).
+pub fn repo() -> &'static str {
+    static R: OnceLock<String> = OnceLock::new();
+    R.get_or_init(|| std::env::var("VERIF_REPO").unwrap_or_else(|_| "/repo".to_string()))
+}
+pub fn data_dir() -> &'static str {
+    static R: OnceLock<String> = OnceLock::new();
+    R.get_or_init(|| format!("{}/data", repo()))
+}
+pub fn probhat() -> &'static str {
+    static R: OnceLock<String> = OnceLock::new();
+    R.get_or_init(|| format!("{}/data/Probhat.json", repo()))
+}
 pub const SYNTHETIC: &str = "/verif/layouts/synthetic.json";
 
 #[derive(Clone, Copy, Debug, PartialEq, Eq, Hash, Serialize, Deserialize)]
@@ -48,7 +60,7 @@ impl Layout {
     pub fn path(self) -> &'static str {
         match self {
             Layout::Phonetic => "avro_phonetic",
-            Layout::Probhat => PROBHAT,
+            Layout::Probhat => probhat(),
             Layout::Synthetic => SYNTHETIC,
         }
     }
@@ -271,7 +283,7 @@ pub fn mk_config_at(o: &Opts, xdg_base: &Path) -> Box<Config> {
         let l = CString::new(o.layout.path()).unwrap();
         assert!(riti_config_set_layout_file(c, l.as_ptr()), "layout path rejected");
         if !o.nodata {
-            let d = CString::new(DATA_DIR).unwrap();
+            let d = CString::new(data_dir()).unwrap();
             assert!(riti_config_set_database_dir(c, d.as_ptr()), "data dir rejected");
         }
         // A front-end may call the option setters in any order: the order is varied with the option
@@ -401,7 +413,7 @@ pub struct KeyTable {
 
 impl KeyTable {
     fn load() -> KeyTable {
-        let h = std::fs::read_to_string(format!("{REPO}/include/riti.h")).expect("riti.h");
+        let h = std::fs::read_to_string(format!("{}/include/riti.h", repo())).expect("riti.h");
         let mut keys = vec![];
         for l in h.lines() {
             if let Some(r) = l.strip_prefix("#define VC_") {
